@@ -11,120 +11,20 @@ import (
 	"strings"
 	"sync"
 	"testing"
+	"time"
 
 	"github.com/nspcc-dev/neo-go/pkg/config"
-	"github.com/nspcc-dev/neo-go/pkg/core/transaction"
-	"github.com/nspcc-dev/neo-go/pkg/neotest"
 	"github.com/nspcc-dev/neo-go/verifharness/vlib/ev"
 	"github.com/nspcc-dev/neo-go/verifharness/vlib/rng"
 	"github.com/nspcc-dev/neo-go/verifharness/vlib/vchain"
 )
 
-const epoch = 6 // committee size of the 4-validator test network
+const epoch = vchain.Epoch
 
-type history struct {
-	idx    int
-	proto  func(*config.Blockchain)
-	pname  string
-	p      *vchain.Producer
-	extras [][]*transaction.Transaction // extras[i]: never-mined transactions valid when block i+1 is built
-	txs    [][]*transaction.Transaction
-}
+type history = vchain.History
 
-func protoFor(idx int) (string, func(*config.Blockchain)) {
-	base := func(c *config.Blockchain) {
-		c.MaxTraceableBlocks = 10
-		c.MaxValidUntilBlockIncrement = 5
-	}
-	if idx%3 == 2 {
-		return "staged-forks", func(c *config.Blockchain) { vchain.StagedForks(c); base(c) }
-	}
-	return "all-forks", func(c *config.Blockchain) { vchain.AllForks(c); base(c) }
-}
-
-// build generates one history.
 func build(t *testing.T, idx, nblocks int, srih bool, replay *history) *history {
-	pname, proto := protoFor(idx)
-	pr := proto
-	if srih {
-		pr = func(c *config.Blockchain) { proto(c); c.StateRootInHeader = true }
-	}
-	h := &history{idx: idx, proto: pr, pname: pname}
-	h.p = vchain.NewProducer(t, vchain.ProducerConfig{Proto: pr, Users: 10, Observe: true, Stream: uint64(idx)*7 + 100})
-	p := h.p
-	if replay != nil {
-		// the same transactions sealed into another block stream
-		for i := 1; i < len(replay.txs); i++ {
-			p.AddBlock(replay.txs[i]...)
-		}
-		return h
-	}
-	h.txs = append(h.txs, p.Blocks[0].Transactions)
-	h.extras = append(h.extras, nil)
-	r := rng.New(uint64(idx)*7 + 101)
-	// governance bootstrap: give voters weight, register candidates, vote.
-	var txs []*transaction.Transaction
-	for i, u := range p.Users {
-		if i < 8 {
-			txs = append(txs, p.Call("fund-neo-big", []neotest.Signer{p.Val}, p.NeoH, "transfer", p.Val.ScriptHash(), u.Hash(), int64(5_000_000+i*1111), nil))
-		}
-	}
-	p.AddBlock(txs...)
-	h.txs = append(h.txs, txs)
-	h.extras = append(h.extras, nil)
-	txs = nil
-	for i, u := range p.Users {
-		if i >= 2 {
-			txs = append(txs, p.Call("register-candidate", []neotest.Signer{u.S}, p.NeoH, "registerCandidate", u.Acc.PublicKey().Bytes()))
-		}
-	}
-	p.AddBlock(txs...)
-	h.txs = append(h.txs, txs)
-	h.extras = append(h.extras, nil)
-	txs = nil
-	for i, u := range p.Users {
-		if i < 8 {
-			txs = append(txs, p.Call("vote", []neotest.Signer{u.S}, p.NeoH, "vote", u.Hash(), p.Users[2+(i*3)%8].Acc.PublicKey().Bytes()))
-		}
-	}
-	p.AddBlock(txs...)
-	h.txs = append(h.txs, txs)
-	h.extras = append(h.extras, nil)
-	quiet, quietAt := false, 0
-	quietW := vchain.DefaultWeights
-	quietW.Vote, quietW.Candidate, quietW.NeoTransfer, quietW.Block, quietW.Payment, quietW.Fault = 0, 0, 0, 0, 0, 0
-	for len(p.Raw) < nblocks {
-		// never-mined transactions for mempool stuffing
-		var ex []*transaction.Transaction
-		for range r.Intn(3) {
-			u := p.Users[r.Intn(len(p.Users))]
-			if !u.Blocked {
-				ex = append(ex, p.Call("pool-only", []neotest.Signer{u.S}, p.GasH, "transfer", u.Hash(), p.Users[0].Hash(), int64(1+r.Intn(5)), nil))
-			}
-		}
-		// governance-quiet epochs: only Policy touches candidate eligibility, so
-		// nothing else marks the vote tally as changed before the epoch ends.
-		next := len(p.Raw) + 1
-		if next%epoch == 1 {
-			quiet = r.Intn(3) == 0
-			if quiet {
-				p.Cfg.W = quietW
-				quietAt = next + r.Intn(epoch-1)
-			} else {
-				p.Cfg.W = vchain.DefaultWeights
-			}
-		}
-		txs := p.GenTxs()
-		if quiet && next == quietAt {
-			if tx := p.BlockCandidate(); tx != nil {
-				txs = append(txs, tx)
-			}
-		}
-		p.AddBlock(txs...)
-		h.txs = append(h.txs, txs)
-		h.extras = append(h.extras, ex)
-	}
-	return h
+	return vchain.BuildHistory(t, vchain.HistoryCfg{Idx: idx, Blocks: nblocks, SRIH: srih, Replay: replay})
 }
 
 type repCfg struct {
@@ -177,8 +77,8 @@ type outcome struct {
 // feed replays history h on one replica and returns the first divergence.
 func feed(t *testing.T, run *ev.Run, h *history, rc repCfg, stream uint64, concurrentFlush bool) *outcome {
 	r := rng.New(stream)
-	p := h.p
-	cfg := func(c *config.Blockchain) { h.proto(c); rc.local(c) }
+	p := h.P
+	cfg := func(c *config.Blockchain) { h.Proto(c); rc.local(c) }
 	rep, err := vchain.OpenReplica(t, vchain.ReplicaCfg{Name: rc.name, Cfg: cfg, Backend: rc.backend})
 	if err != nil {
 		return &outcome{sig: "replica-open-failed", detail: err.Error()}
@@ -199,6 +99,7 @@ func feed(t *testing.T, run *ev.Run, h *history, rc repCfg, stream uint64, concu
 				default:
 					_ = rep.BC.VerifPersist()
 					run.Obs("concurrent_flushes", 1)
+					time.Sleep(30 * time.Microsecond)
 				}
 			}
 		}()
@@ -208,7 +109,7 @@ func feed(t *testing.T, run *ev.Run, h *history, rc repCfg, stream uint64, concu
 	for i := range p.Raw {
 		height := i + 1
 		if rc.mempool {
-			for _, tx := range h.txs[i] {
+			for _, tx := range h.Txs[i] {
 				if r.Intn(2) == 0 {
 					tc := *tx // a node pools its own parsed copy
 					if rep.BC.PoolTx(&tc) == nil {
@@ -216,7 +117,7 @@ func feed(t *testing.T, run *ev.Run, h *history, rc repCfg, stream uint64, concu
 					}
 				}
 			}
-			for _, tx := range h.extras[i] {
+			for _, tx := range h.Extras[i] {
 				tc := *tx
 				if rep.BC.PoolTx(&tc) == nil {
 					run.Obs("mempool_stale_txs_pooled", 1)
@@ -310,11 +211,11 @@ func TestCheck(t *testing.T) {
 	run.Assume("MaxTraceableBlocks is protocol state and therefore equal (10) on every node of a farm")
 	part := os.Getenv("VERIF_PART")
 	tier := ev.Tier()
-	nh := ev.Pick(2, 9)
-	nb := ev.Pick(60, 150)
+	nh := ev.Pick(5, 24)
+	nb := ev.Pick(100, 200)
 	race := part == "race"
 	if race {
-		nh, nb = 2, 60
+		nh, nb = ev.Pick(1, 4), ev.Pick(60, 80)
 	}
 	for hi := 0; hi < nh; hi++ {
 		hidx := hi
@@ -322,12 +223,12 @@ func TestCheck(t *testing.T) {
 			hidx += 100
 		}
 		h := build(t, hidx, nb, false, nil)
-		sum := h.p.KindsSummary()
+		sum := h.P.KindsSummary()
 		kinds := strings.Join(sum, " ")
 		rich := strings.Contains(kinds, "vote:HALT") && strings.Contains(kinds, "run-plan:HALT") && strings.Contains(kinds, "set-")
-		run.Sample(map[string]any{"history": hidx, "protocol": h.pname, "blocks": len(h.p.Raw), "tx_kinds": sum, "final_root": h.p.Obs[len(h.p.Obs)-1].Vals[3]})
-		run.Obs("blocks_produced", int64(len(h.p.Raw)))
-		for k, n := range h.p.Kinds {
+		run.Sample(map[string]any{"history": hidx, "protocol": h.PName, "blocks": len(h.P.Raw), "tx_kinds": sum, "final_root": h.P.Obs[len(h.P.Obs)-1].Vals[3]})
+		run.Obs("blocks_produced", int64(len(h.P.Raw)))
+		for k, n := range h.P.Kinds {
 			if strings.HasSuffix(k, ":HALT") {
 				run.Obs("txs_halted", int64(n))
 			} else {
@@ -351,9 +252,9 @@ func TestCheck(t *testing.T) {
 				out := feed(t, run, h, rc, uint64(hidx)*1000+uint64(ri)+5000, race)
 				mu.Lock()
 				defer mu.Unlock()
-				run.Case(fmt.Sprint(hidx, h.pname, rc.name, race), rich)
+				run.Case(fmt.Sprint(hidx, h.PName, rc.name, race), rich)
 				if out != nil {
-					run.Violation(out.sig+":"+rc.restarts, id, out.detail, map[string]any{"history": hidx, "protocol": h.pname, "replica": rc.name, "height": out.height, "schedule": out.log, "tx_kinds_at_height": kindAt(h, out.height)})
+					run.Violation(out.sig+":"+rc.restarts, id, out.detail, map[string]any{"history": hidx, "protocol": h.PName, "replica": rc.name, "height": out.height, "schedule": out.log, "tx_kinds_at_height": kindAt(h, out.height)})
 				}
 			}()
 		}
@@ -363,28 +264,28 @@ func TestCheck(t *testing.T) {
 			h2 := build(t, hidx, nb, true, h)
 			bad := ""
 			at := 0
-			for i := range h.p.Obs {
-				if d := diffSkip(h.p.Obs[i], h2.p.Obs[i]); d != "" {
+			for i := range h.P.Obs {
+				if d := diffSkip(h.P.Obs[i], h2.P.Obs[i]); d != "" {
 					bad, at = d, i
 					break
 				}
 				run.Obs("observations_compared", 1)
 			}
-			run.Case(fmt.Sprint(hidx, h.pname, "srih-twin"), rich)
+			run.Case(fmt.Sprint(hidx, h.PName, "srih-twin"), rich)
 			if bad != "" {
 				run.Violation("state-root-in-header-twin-diverged", fmt.Sprintf("h%d/srih", hidx), fmt.Sprintf("height %d: %s", at, bad), map[string]any{"history": hidx, "height": at})
 			}
-			h2.p.Close()
+			h2.P.Close()
 		}
-		h.p.Close()
+		h.P.Close()
 	}
 }
 
 func kindAt(h *history, height int) []string {
 	var r []string
 	for i := height - 3; i <= height; i++ {
-		if i >= 1 && i <= len(h.p.KindLog) {
-			r = append(r, fmt.Sprintf("%d:%v", i, h.p.KindLog[i-1]))
+		if i >= 1 && i <= len(h.P.KindLog) {
+			r = append(r, fmt.Sprintf("%d:%v", i, h.P.KindLog[i-1]))
 		}
 	}
 	sort.Strings(r)
